@@ -27,8 +27,13 @@ TRUSTED_BASE = [
     "Model/ShapeOps.v as a transcription of the COO code paths (transpose, T, mT, swapaxes, moveaxis, reshape, flatten, "
     "squeeze, expand_dims, flip, roll, pad, broadcast_to, and the constructor's sort), checked against the "
     "implementation's concrete coords/data/fill/exception class on every generated case",
-    "GCXS and DOK inputs/results are compared with the Spec only (dense meaning, fill, well-formedness gcxs_wfb); the GCXS "
-    "algorithms (_transpose/_1d_reshape/_convert_coords/_2d_transpose, compressed-axes re-choice) are not modelled",
+    "Model/ShapeOpsG.v as a transcription of GCXS.transpose/_2d_transpose/reshape and convert._transpose/_1d_reshape, "
+    "checked against the implementation's raw data/indices/indptr/compressed_axes on every GCXS case (judge_c08g), "
+    "against the functions _1d_reshape/_transpose called directly with arbitrary compressed axes (judge_kfun) and, one "
+    "iteration at a time, against the kernels _convert_coords/_linearize/_c_ordering; the order in which the call "
+    "sites bind values to kernel parameters is extracted from the source (tools/sitegen/shapeops.py -> Gen/S_shapeops.v)",
+    "Model/Convert.v (property C05): gcxs_from_coo and the NumPy primitives stable_sort/indptr_of/unravel_k/ravel_k, and "
+    "its theorems gcxs_from_coo_wf/den; DOK inputs/results are compared with the Spec only",
     "correspondence harness tools/props/c08.py, tools/vlib.py, Corr/SArr.v, Corr/C08Judge.v",
 ]
 ASSUMPTIONS = [
@@ -39,12 +44,12 @@ ASSUMPTIONS = [
     "(proved: results are canonical) and is not modelled; the operation cache (enable_caching) is C11/C13",
 ]
 UNPROVED = [
-    "GCXS transpose/reshape/_2d_transpose den + wf theorems (no GCXS model; correspondence against the Spec only)",
-    "moveaxis: equality of NumPy's insertion algorithm (moveaxis_order, which the theorem is stated about) with the "
-    "declarative np_moveaxis_perm (checked on every generated case by the judge, code 4)",
-    "broadcast_arrays: np_broadcast_shapes(shapes) is an accepted broadcast_to target for each operand (each output is "
-    "covered by broadcast_to_den once the common shape is given; the link is checked by correspondence)",
-    "kernel-level correspondence for _compressed/convert._convert_coords",
+    "GCXS theorems are stated for arrays of the form _from_coo(c, ca) with c canonical (the form C05 proves for every "
+    "array the library builds); that EVERY array satisfying gcxs_wfb is of that form is not proved",
+    "GCXS with 0 axes (source or target of reshape; finding zero_dim_gcxs_dok_input) is outside the GCXS model",
+    "moveaxis_order = np_moveaxis_perm is proved for ndim <= 5 (the property's scope; exhaustive evaluation inside Coq, "
+    "bound in the statement), not for arbitrary ndim",
+    "index dtypes chosen by get_out_dtype in _transpose/_1d_reshape (C15) and the DOK paths (conversion to COO; C05/C12)",
 ]
 
 CLAUSES = {
@@ -189,6 +194,8 @@ def impl_op(case):
     # the operand is not modified (cheap side check; C11 owns the property)
     out["operand_changed"] = vlib.plain(x) != before
     out["in_dtype"] = str(x.dtype)
+    if spec["format"] == "gcxs":
+        out["in"] = before
     if not case.get("huge"):
         d = vlib.spec_dense(spec)
         try:
@@ -200,6 +207,129 @@ def impl_op(case):
                 ref["exc"] = "ValueError"
         out["np"] = ref
     return out
+
+
+# ------------------------------------------------------------------ kernel level (convert.py)
+def _axis_order(nd, ca):
+    return list(ca) + [a for a in range(nd) if a not in ca]
+
+
+def impl_kernel(case):
+    """call _convert_coords / _linearize / _c_ordering / _1d_reshape / _transpose themselves"""
+    import warnings
+
+    import numpy as np
+    from sparse.numba_backend._compressed import convert as cv
+    warnings.filterwarnings("ignore")
+    k = case["k"]
+    I = lambda l: np.asarray(l, dtype=np.intp)  # noqa: E731, E741
+    if k == "convert":
+        lin = I(case["linear"])
+        nl = np.empty(len(lin), dtype=np.intp)
+        nc = np.empty((2, len(lin)), dtype=np.intp)
+        cv._convert_coords(lin, I(case["old_shape"]), I(case["rsh"]), I(case["sao"]), I(case["axes"]), I(case["shape"]),
+                           I(case["new_ord"]), I(case["new_rsh"]), nl, nc, I(case["new_cshape"]), bool(case["transpose"]))
+        return {"nl": nl.tolist(), "rows": nc[0].tolist(), "cols": nc[1].tolist()}
+    if k == "linearize":
+        xs = I(case["xs"])
+        nl = np.empty(len(xs), dtype=np.intp)
+        nc = np.empty((2, len(xs)), dtype=np.intp)
+        cv._linearize(xs, I(case["shape"]), I(case["new_ord"]), I(case["new_rsh"]), I(case["new_cshape"]), nl, nc)
+        return {"nl": nl.tolist(), "rows": nc[0].tolist(), "cols": nc[1].tolist()}
+    if k == "kfun":
+        import sparse
+        x = vlib.build_array(case["spec"])
+        kind = case["kind"]
+        nsh = tuple(case["nsh"])
+        nca = tuple(case["nca"]) if case["nca"] else None
+        if kind == 0:
+            d, i, p = cv._1d_reshape(x, nsh, nca)
+        elif kind in (1, 2):
+            d, i, p = cv._transpose(x, nsh, np.arange(x.ndim), nca)
+        else:
+            d, i, p = cv._transpose(x, nsh, tuple(case["axes"]), nca, transpose=True)
+        return {"data": [vlib.val_token(v) for v in d], "indices": [int(v) for v in i], "indptr": [int(v) for v in p]}
+    if k == "c_ordering":
+        lin = I(case["linear"])
+        cl = np.empty(len(lin), dtype=np.intp)
+        cv._c_ordering(lin, cl, I(case["rsh"]), I(case["sao"]), I(case["shape"]))
+        return {"cl": cl.tolist()}
+    raise ValueError(k)
+
+
+def kernel_cases(tier, seed):
+    rng = random.Random(seed + 17)
+    out = []
+    n = 60 if tier == "quick" else 400
+
+    def shape(nd):
+        return [rng.choice([1, 2, 2, 3, 4]) for _ in range(nd)]
+
+    def prod(l):
+        p = 1
+        for d in l:
+            p *= d
+        return p
+
+    def caxes(nd):
+        return sorted(rng.sample(range(nd), rng.randint(1, nd - 1)))
+
+    for _ in range(n):
+        nd = rng.randint(2, 4)
+        sh = shape(nd)
+        ca = caxes(nd)
+        ordr = _axis_order(nd, ca)
+        rsh = [sh[a] for a in ordr]
+        sao = sorted(range(nd), key=lambda i: ordr[i])
+        size = prod(sh)
+        linear = rng.sample(range(size), min(size, 24))
+        if rng.random() < 0.5:      # transpose=True
+            axes = list(range(nd))
+            rng.shuffle(axes)
+            nsh = [sh[a] for a in axes]
+            tr = True
+        else:                       # reshape / change of compressed axes
+            axes = list(range(nd))
+            fs = [f for k in (2, 3) for f in ordered_factorizations(size, k)] if size else [sh]
+            nsh = rng.choice(fs)
+            tr = False
+        nnd = len(nsh)
+        nca = caxes(nnd)
+        nord = _axis_order(nnd, nca)
+        nrsh = [nsh[a] for a in nord]
+        ncs = [prod(nrsh[:len(nca)]), prod(nrsh[len(nca):])]
+        out.append({"k": "convert", "transpose": tr, "linear": linear, "old_shape": sh, "rsh": rsh, "sao": sao,
+                    "axes": axes, "shape": nsh, "new_ord": nord, "new_rsh": nrsh, "new_cshape": ncs})
+        out.append({"k": "c_ordering", "linear": linear, "rsh": rsh, "sao": sao, "shape": sh})
+        out.append({"k": "linearize", "xs": sorted(rng.sample(range(prod(nsh)), min(prod(nsh), 24))), "shape": nsh,
+                    "new_ord": nord, "new_rsh": nrsh, "new_cshape": ncs})
+        # the functions themselves, on a GCXS array with arbitrary valid compressed axes
+        sp = vlib.gen_array_spec(rng, shape=sh, fills=(0, 3), density=rng.choice([0.3, 0.7, 1.0]))
+        sp["format"], sp["caxes"] = "gcxs", ca
+        if tr:
+            mn = nsh.index(min(nsh))
+            out.append({"k": "kfun", "kind": 3, "spec": sp, "nsh": nsh, "nca": [mn], "axes": axes})
+        else:
+            out.append({"k": "kfun", "kind": 1, "spec": sp, "nsh": nsh, "nca": nca, "axes": []})
+            out.append({"k": "kfun", "kind": 2, "spec": sp, "nsh": [size], "nca": [], "axes": []})
+        s1 = vlib.gen_array_spec(rng, shape=[prod(nsh)], fills=(0, 3), density=rng.choice([0.3, 0.7, 1.0]))
+        s1["format"], s1["caxes"] = "gcxs", None
+        out.append({"k": "kfun", "kind": 0, "spec": s1, "nsh": nsh, "nca": nca, "axes": []})
+    return out
+
+
+def kernel_lit(c, r):
+    L = vlist
+    if c["k"] == "convert":
+        return vpair(vlib.vbool(c["transpose"]), L(c["linear"]), L(c["old_shape"]), L(c["rsh"]), L(c["sao"]), L(c["axes"]),
+                     L(c["shape"]), L(c["new_ord"]), L(c["new_rsh"]), L(c["new_cshape"]), L(r["nl"]), L(r["rows"]), L(r["cols"]))
+    if c["k"] == "linearize":
+        return vpair(L(c["xs"]), L(c["shape"]), L(c["new_ord"]), L(c["new_rsh"]), L(c["new_cshape"]),
+                     L(r["nl"]), L(r["rows"]), L(r["cols"]))
+    if c["k"] == "kfun":
+        return vpair(vlib.spec_coo_lit(c["spec"]), L(c["spec"]["caxes"] or []), vZ(c["kind"]), L(c["nsh"]), L(c["nca"]),
+                     L(c["axes"]), vpair(L(r["data"]), L(r["indices"]), L(r["indptr"])))
+    return vpair(L(c["linear"]), L(c["rsh"]), L(c["sao"]), L(c["shape"]), L(r["cl"]))
 
 
 # ------------------------------------------------------------------ Coq literals
@@ -668,6 +798,49 @@ def campaign(build, tier, seed, report, budget=1):
         npref = rr.pop("np", None)
         viol.append({"property": "C08", "op": op["op"], "kind": kind, "clause": clause, "format": c["spec"]["format"],
                      "verdict_code": code, "case": c, "impl": rr, "numpy": npref, "replay_py": replay_line(c)})
+    # GCXS: raw (data, indices, indptr, compressed_axes) against Model/ShapeOpsG.v
+    g_idx, g_lits = [], []
+    for i in keep:
+        c, r = cases[i], res[i]
+        op = c["op"]
+        if c["spec"]["format"] != "gcxs" or not r or "in" not in r:
+            continue
+        if op["op"] not in ("transpose", "T", "mT", "moveaxis", "reshape", "flatten") or \
+                (op["op"] == "mT" and op.get("api") != "method"):
+            continue
+        g_idx.append(i)
+        g_lits.append(vpair(vlib.spec_coo_lit(c["spec"]), vlist(c["spec"]["caxes"] or []), op_lit(op),
+                            vlib.sarr_lit(r["in"]), vlib.sarr_lit({k: v for k, v in r.items() if k not in ("np", "in")})))
+    gimports = "From Verif Require Import Py Shape COO GCXS SArr Convert ShapeOps NpShapeOps ShapeOpsG C08Judge C08GJudge."
+    gbad = build.judge("c08_gcxs", gimports, "c08g_case", "judge_c08g", g_lits, chunk=250, timeout=600)
+    for k, code in gbad:
+        i = g_idx[k]
+        c, r = cases[i], res[i]
+        viol.append({"property": "C08", "op": c["op"]["op"], "kind": "representation",
+                     "clause": {1: "gcxs_input_not_from_coo", 2: "gcxs_model_exception_class", 3: "gcxs_model_raw_arrays"}[code],
+                     "format": "gcxs", "verdict_code": code, "case": c,
+                     "impl": {kk: v for kk, v in r.items() if kk != "np"}, "replay_py": replay_line(c)})
+    gtags = build.judge("c08_gcxs_tags", gimports, "c08g_case", "tag_c08g", g_lits, chunk=250, timeout=600)
+    # kernel level: _convert_coords / _linearize / _c_ordering against their one-iteration models
+    kcs = kernel_cases(tier, seed)
+    kres = vlib.run_impl("props.c08", "impl_kernel", kcs, workers=6)
+    kn = 0
+    for kind, ctype, jfn in (("convert", "convert_case", "judge_convert_coords"),
+                             ("linearize", "linearize_case", "judge_linearize"),
+                             ("c_ordering", "c_ordering_case", "judge_c_ordering"),
+                             ("kfun", "kfun_case", "judge_kfun")):
+        sel = [j for j, kc in enumerate(kcs) if kc["k"] == kind]
+        bad_k = [j for j in sel if not kres[j] or not ({"nl", "cl", "data"} & set(kres[j]))]
+        for j in bad_k:
+            viol.append({"property": "C08", "op": "kernel:" + kind, "kind": "representation", "clause": "kernel_call_failed",
+                         "case": kcs[j], "impl": kres[j], "replay_py": "print('kernel case', %r)" % (kcs[j],)})
+        sel = [j for j in sel if j not in bad_k]
+        kn += len(sel)
+        kb = build.judge("c08_k_" + kind, gimports, ctype, jfn, [kernel_lit(kcs[j], kres[j]) for j in sel], chunk=400)
+        for k, code in kb:
+            j = sel[k]
+            viol.append({"property": "C08", "op": "kernel:" + kind, "kind": "representation", "clause": "kernel_differs_from_model",
+                         "case": kcs[j], "impl": kres[j], "replay_py": "print('kernel case', %r)" % (kcs[j],)})
     # Spec vs NumPy itself (validates Spec/NpShapeOps.v; independent of the implementation)
     spec_bad = build.judge("c08_specnp", imports, "c08_case", "judge_spec_np", np_lits, chunk=400, timeout=600)
     for k, code in spec_bad:
@@ -679,6 +852,9 @@ def campaign(build, tier, seed, report, budget=1):
     cov = report["coverage"]
     cov["evaluations"] = len(keep)
     cov["spec_vs_numpy_evaluations"] = len(np_lits)
+    cov["gcxs_raw_evaluations"] = len(g_lits)
+    cov["gcxs_raw_in_model"] = len(gtags)
+    cov["kernel_evaluations"] = kn
     cov["not_offered"] = not_offered
     cov["distinct_nontrivial"] = len({json.dumps([cases[i]["spec"]["shape"], cases[i]["spec"]["coords"], cases[i]["op"]], sort_keys=True)
                                       for i in keep if cases[i]["spec"]["coords"]})
